@@ -28,7 +28,7 @@ use std::panic;
 
 fn dispatch(prop: &str, case: &str) -> String {
     match prop {
-        "C01" | "C14" | "C05" | "C10S" => c01::run(case),
+        "C01" | "C14" | "C05" | "C10S" | "C20S" => c01::run(case),
         "C09" => c09::run(case),
         "C10" => c10::run(case),
         "C16" => c16::run(case),
